@@ -68,7 +68,7 @@ def run(chk):
                 kw = {k.arg: U(k.value) for k in node.keywords}
                 rg = kw.get("requires_grad", U(node.args[1]) if len(node.args) > 1 else None)
                 chk.require("C11.R4", f"{mi.rel}:{node.lineno}", rg == "False", f"{fn}: Parameter({arg[:50]}) passes requires_grad={rg}", fn, f"Parameter({arg[:40]}) requires grad", "backward through a frozen (or reloaded) module: a float .grad accumulates on the quantized weight")
-    chk.floor("C11.R4", n, 2, "Parameter(<quantized tensor>) sites")
+    chk.floor("C11.R4", n, 1, "Parameter(<quantized tensor>) sites")
     # R5
     h = [x for x in handlers(repo)["qfunc"] if any(o.endswith("functional.linear") for o in x.ops)]
     chk.floor("C11.R5", len(h), 1, "linear dispatch")
